@@ -317,6 +317,8 @@ class Verifier:
         self.itp = Interp(self.lib, contracts=dict(SUMMARIES), invariants=INVARIANTS)
         self.paths_seen = 0
         self.fail_counts = {}
+        self.fail_time = 0.0                            # wall time spent in this task on obligations that did not discharge
+        self.fail_time_cap = float(os.environ.get('PYVC_FAIL_TIME_CAP', '900' if use_cvc5 else '150'))   # use_cvc5 <=> thorough tier
         self.vacuous_paths = 0
         self.canary_ms = 300
         self.engine_errors = []
@@ -488,6 +490,11 @@ class Verifier:
             # the same clause already failed on two paths of this unit case: do not spend the budget again
             res = dict(verdict='unknown', backend='skipped', time_s=0.0, model=None,
                        reason='not attempted: this clause already failed on %d other paths of the same case' % fails)
+        elif self.fail_time > self.fail_time_cap and not (isinstance(goal, bool) and goal):
+            # this task has already reported failures and spent its failure budget: the verdict of the task is settled, do not
+            # let a broken tree turn a one-minute check into an hour
+            res = dict(verdict='unknown', backend='skipped', time_s=0.0, model=None,
+                       reason='not attempted: %d obligations of this task already failed and used %.0f s' % (sum(self.fail_counts.values()), self.fail_time))
         else:
             res = P.discharge(hyps, goal, timeout_ms=budget_ms or self.budget_ms, use_cvc5=self.use_cvc5, seed=self.seed)
         rec = dict(name=full, clause=name, kind=kind, mode=self.mode, verdict=res['verdict'], backend=res['backend'],
@@ -504,6 +511,8 @@ class Verifier:
         if res['verdict'] == 'refuted':
             model = (None if res.get('candidate') else self.nice_model(hyps, goal)) or res['model']
             rec['counterexample'] = self.counterexample(out, model, goal)
+        if res['verdict'] != 'proved':
+            self.fail_time += time.time() - t0
         self.records.append(rec)
         return rec
 
